@@ -125,7 +125,7 @@ var templates = map[string]ctxTemplate{
 	"addr_global":        {Body: "$G = $MK0\np := &$G\n$MUT\n$OUT", SrcLv: "$G", DstLv: "(*p)", PtrEq: "p == &$G"},
 	"addr_global_fn":     {Body: "$G = $MK0\np := addr$N()\n$MUT\n$OUT", SrcLv: "$G", DstLv: "(*p)", PtrEq: "p == &$G"},
 	"addr_sub":           {Body: "x := $MK0\np := &x$K1\n$MUT\n$OUT", SrcLv: "x$K1", DstLv: "(*p)", PtrEq: "p == &x$K1"},
-	"addr_leaf":          {Body: "x := $MK0\np := &$LEAF\n$MUT\n$OUT", SrcLv: "x", DstLv: "(*p)"},
+	"addr_leaf":          {Body: "x := $MK0\np := &$LEAF\n$MUT\n$OUT", SrcLv: "x", DstLv: "(*p)", PtrEq: "p == &$LEAF"},
 	"subslice":           {Body: "s := []$T{$MK0, $MK1, $MK2}\nt := s[1:2]\n$MUT\n$OUT", SrcLv: "s[1]", DstLv: "t[0]", PtrEq: "&t[0] == &s[1]"},
 	"subslice3":          {Body: "s := []$T{$MK0, $MK1, $MK2}\nt := s[1:2:2]\n$MUT\n$OUT", SrcLv: "s[1]", DstLv: "t[0]", PtrEq: "&t[0] == &s[1]"},
 	"subslice_array":     {Body: "a := [2]$T{$MK0, $MK1}\nt := a[1:2]\n$MUT\n$OUT", SrcLv: "a[1]", DstLv: "t[0]", PtrEq: "&t[0] == &a[1]"},
